@@ -345,7 +345,18 @@ func (p *evilPeer) GetVertex(context.Context, *protobufcompiled.SignedHash) (*pr
 
 // ---- generators ----
 
+// c15AddrClasses: 0-6 as below, 7.. = base58 strings decoding to exactly 1,2,3,4,5,6,36,38 arbitrary bytes (shorter
+// than / around the version+key+checksum layout).
+const c15AddrClasses = 15
+
 func (e *c15Env) addrClass(i int) (string, *ref.Key) {
+	i %= c15AddrClasses
+	if i >= 7 {
+		n := []int{1, 2, 3, 4, 5, 6, 36, 38}[i-7]
+		b := fill(n, "rand", byte(n))
+		b[0] |= 1 // no leading zero byte, so the decoded length is exactly n
+		return base58.Encode(b), nil
+	}
 	switch i % 7 {
 	case 0:
 		return "", nil
@@ -373,7 +384,7 @@ func (e *c15Env) signedHashShapes(f func(m *protobufcompiled.SignedHash, desc st
 		dnames = append(dnames, k)
 	}
 	sort.Strings(dnames)
-	for ai := 0; ai < 7; ai++ {
+	for ai := 0; ai < c15AddrClasses; ai++ {
 		addr, key := e.addrClass(ai)
 		for _, dn := range dnames {
 			data := datas[dn]
@@ -498,7 +509,7 @@ func (e *c15Env) vertexShapes(f func(v *protobufcompiled.Vertex, desc string)) {
 	v = mk()
 	v.Transaction.Spice = nil
 	f(v, "vertex.transaction.spice=nil")
-	for ai := 0; ai < 7; ai++ {
+	for ai := 0; ai < c15AddrClasses; ai++ {
 		a, _ := e.addrClass(ai)
 		v = mk()
 		v.SignerPublicAddress = a
@@ -525,6 +536,11 @@ func (e *c15Env) gossiperLists(hash []byte) map[string][]*protobufcompiled.Gossi
 		"[nil-digest]":    {{Address: k.Addr, Signature: s}},
 		"[odd-key-addr]":  {{Address: addrOddKey(31), Digest: d[:], Signature: s}},
 		"[empty-address]": {{Digest: d[:], Signature: s}},
+		"[4-byte-address]": func() []*protobufcompiled.Gossiper {
+			a := base58.Encode([]byte{9, 8, 7, 6})
+			dd := sha256.Sum256(append([]byte(a), h[:]...))
+			return []*protobufcompiled.Gossiper{{Address: a, Digest: dd[:], Signature: s}}
+		}(),
 		"[long-digest]":   {{Address: k.Addr, Digest: append(d[:], 1, 2), Signature: s}},
 	}
 }
@@ -664,9 +680,9 @@ func TestC15(t *testing.T) {
 		}
 		// Announce / Discover
 		now := uint64(1_700_000_000_000_000_000)
-		for ai := 0; ai < 8; ai++ {
+		for ai := 0; ai <= c15AddrClasses; ai++ {
 			addr, key := e.addrClass(ai)
-			if ai == 7 {
+			if ai == c15AddrClasses {
 				addr, key = e.peerA.Addr, e.peerA // an already connected peer
 			}
 			for _, url := range []string{"", "somewhere:1"} {
@@ -701,7 +717,7 @@ func TestC15(t *testing.T) {
 				return shapeBytes(rapid.SampledFrom(c15ByteLens).Draw(rt, "len"), rapid.Byte().Draw(rt, "salt"))
 			})
 			addrG := rapid.Custom(func(rt *rapid.T) string {
-				a, _ := e.addrClass(rapid.IntRange(0, 6).Draw(rt, "addrClass"))
+				a, _ := e.addrClass(rapid.IntRange(0, c15AddrClasses-1).Draw(rt, "addrClass"))
 				return a
 			})
 			kind := rapid.IntRange(0, 3).Draw(rt, "kind")
